@@ -497,7 +497,7 @@ def check_txid(ctx, rng, model, txobj):
             ctx.violation("txid-depends-on-witness", "id changed after a witness edit", {"op": "tx-model", "model": model})
         ti.witness = old
     # every non-witness field edit changes the id
-    edits = ["version", "locktime", "in.txid", "in.vout", "in.sequence", "in.script", "out.amount", "out.script", "drop-out", "add-out"]
+    edits = ["version", "locktime", "in.txid", "in.vout", "in.sequence", "in.script", "in.script-inplace", "out.amount", "out.script", "out.script-inplace", "drop-out", "add-out"]
     from buidl.script import Script
     from buidl.tx import TxOut
     from buidl.timelock import Locktime, Sequence
@@ -530,6 +530,23 @@ def check_txid(ctx, rng, model, txobj):
             old = ti.script_sig
             ti.script_sig = Script(list(old.commands) + [0x51])
             undo = lambda: setattr(ti, "script_sig", old)  # noqa: E731
+        elif e == "in.script-inplace":
+            # one command of the existing list replaced in place (same Script object, same list, same length)
+            cmds = ti.script_sig.commands
+            if not cmds or getattr(ti.script_sig, "raw", None):
+                continue
+            pos = rng.randrange(len(cmds))
+            old = cmds[pos]
+            cmds[pos] = (0x52 if old != 0x52 else 0x53) if isinstance(old, int) else bytes([old[0] ^ 1]) + old[1:] if len(old) else 0x51
+            undo = lambda cmds=cmds, pos=pos, old=old: cmds.__setitem__(pos, old)  # noqa: E731
+        elif e == "out.script-inplace" and to is not None:
+            cmds = to.script_pubkey.commands
+            if not cmds or getattr(to.script_pubkey, "raw", None):
+                continue
+            pos = rng.randrange(len(cmds))
+            old = cmds[pos]
+            cmds[pos] = (0x52 if old != 0x52 else 0x53) if isinstance(old, int) else bytes([old[0] ^ 1]) + old[1:] if len(old) else 0x51
+            undo = lambda cmds=cmds, pos=pos, old=old: cmds.__setitem__(pos, old)  # noqa: E731
         elif e == "out.amount" and to is not None:
             old = to.amount
             to.amount = (old + 1) % 2**64
